@@ -728,7 +728,8 @@ def mon_c07(h):
 def mon_c16(h):
     bad = []
     last = {}
-    for e in h.kinds("CHANGE"):
+    # SCHANGE: deliveries of a SelectorSubscriber object shared by two stores (engine F pairs)
+    for e in h.kinds("CHANGE", "SCHANGE"):
         s, v = int(e["f"][0]), e["f"][1]
         if last.get(s) == v:
             bad.append(("dedup", "selector subscriber %d was called twice in a row with value %s" % (s, v)))
@@ -771,7 +772,7 @@ def mon_c19(h):
             entry = e["f"][0].split(".")[1]
             if (first_close is None or e["i"] < first_close) and not (entry == "D" and h.sc["pol"] == "latest"):
                 bad.append(("acceptance", "dispatch %s was rejected although this store was open" % e["f"][0]))
-    for m in (mon_c01, mon_c03, mon_c04, mon_c05, mon_c06, mon_c18):
+    for m in (mon_c01, mon_c03, mon_c04, mon_c05, mon_c06, mon_c18, mon_c16):
         r = m(h)
         bad += [("per-store/" + c, d) for c, d in (r[0] if isinstance(r, tuple) else r)]
     return bad
